@@ -35,16 +35,19 @@ KINDS = {
                  ["parray", B1, ["int", 2, False, "b", "alias"]], ["parray", ["varint"], B1]],
     "unsizable": [["varint"], ["cstr", "utf8"], ["pascal", B1, "utf8"], ["zigzag"], ["struct", [["x", ["varint"]], ["y", B1]]]],
 }
+# sized by a member of the ENCLOSING struct (only meaningful when the list is nested under a parent that has "pre")
+KINDS["ctxup"] = [["bytes", ["this", ["_", "pre"], "attr"]], ["array", ["this", ["_", "pre"], "item"], B1],
+                  ["bytes", ["bin", "+", ["this", ["_", "pre"], "attr"], ["const", 1]]]]
 LAZY_OK = ("fixed", "ctx", "prefixed")
 
 
 @st.composite
-def member_lists(draw, for_lazy_wrapper=False, min_size=1, max_size=6):
+def member_lists(draw, for_lazy_wrapper=False, min_size=1, max_size=6, up=False):
     n = draw(st.integers(min_size, max_size))
     members = []
     kinds = []
     for i in range(n):
-        kind = draw(st.sampled_from(list(LAZY_OK) if for_lazy_wrapper else ["fixed", "fixed", "ctx", "prefixed", "prefixed", "unsizable"]))
+        kind = draw(st.sampled_from(list(LAZY_OK) if for_lazy_wrapper else ["fixed", "fixed", "ctx", "prefixed", "prefixed", "unsizable"] + (["ctxup", "ctxup"] if up else [])))
         spec = draw(st.sampled_from(KINDS[kind]))
         anonymous = spec[0] == "const" and draw(st.booleans())
         members.append([None if anonymous else "m%d" % i, spec])
@@ -73,7 +76,8 @@ def member_names(members):
 
 def struct_oracle(ctx):
     def oracle(case):
-        members, params, data, start, history, nested = case
+        members, params, data, start, history, nested = case[:6]
+        deep = len(case) > 6 and case[6]
         eager_spec = ["struct", members]
         lazy_spec = ["lazystruct", members]
         names = member_names(members)
@@ -82,6 +86,11 @@ def struct_oracle(ctx):
             eager = C.Struct("pre" / C.Byte, "l" / G.realise(eager_spec), "c" / C.Computed(lambda c: c.l[probe]), "d" / C.Byte)
             lazy = C.Struct("pre" / C.Byte, "l" / G.realise(lazy_spec), "c" / C.Computed(lambda c: c.l[probe]), "d" / C.Byte)
             data = b"\x01" + data + b"\x5d"
+            if deep:
+                # the same member name one scope further out, holding another value: names resolve in the nearest scope
+                unwrap = lambda con: C.FocusedSeq("mid", "pre" / C.Byte, "mid" / con, "z" / C.Byte)
+                eager, lazy = unwrap(eager), unwrap(lazy)
+                data = b"\x03" + data + b"\x00"
         else:
             eager, lazy = G.realise(eager_spec), G.realise(lazy_spec)
         e, es = at_offset(eager, data, start, params)
@@ -91,7 +100,9 @@ def struct_oracle(ctx):
         l, ls = at_offset(lazy, data, start, params)
         decl_once = [h for h in history if h[0] in ("name", "attr", "index")]
         nontriv = history != [["name", n] for n in names] or any(k[1][0] in ("prefixed", "parray", "varint", "cstr", "pascal", "zigzag") for k in members)
-        ctx.record(case, nontriv, ["struct/nested" if nested else "struct/top", "struct/members=%d" % len(members)])
+        upref = any("'pre'" in repr(sp) for _, sp in members)
+        ctx.record(case, nontriv, ["struct/nested" if nested else "struct/top", "struct/members=%d" % len(members)] +
+                   (["struct/sized-by-enclosing-scope" + ("/shadowed" if deep else "")] if upref and nested else []))
         where = "members=%s params=%s data=%s start=%d nested=%r history=%s" % (short(members, 500), params, data.hex(), start, nested, short(history, 300))
         if not l.ok:
             return Failure("C16/lazystruct/parse-raises", "eager parse succeeds, lazy parse raised %r | %s" % (l, where))
@@ -129,9 +140,10 @@ def struct_oracle(ctx):
             if ls.tell() != before:
                 return Failure("C16/lazycontainer/access-moves-stream", "access %s moved the stream from %d to %d | %s" % (op, before, ls.tell(), where))
         # building from the lazy result reproduces what the eager result builds (canonical input)
-        eb = call(G.realise(eager_spec).build, ec, **params)
-        lb = call(G.realise(lazy_spec).build, lc, **params)
-        cb = call(lambda: G.realise(eager_spec).build(C.Container(lc), **params))
+        bparams = dict(params, pre=1) if nested else params     # (stands in for the parent's member when built on its own)
+        eb = call(G.realise(eager_spec).build, ec, **bparams)
+        lb = call(G.realise(lazy_spec).build, lc, **bparams)
+        cb = call(lambda: G.realise(eager_spec).build(C.Container(lc), **bparams))
         if eb.ok and not (lb.ok and lb.value == eb.value):
             return Failure("C16/lazystruct/build-from-lazy", "build from the lazy result -> %r, from the eager result %s | %s" % (lb, eb.value.hex(), where))
         if eb.ok and not (cb.ok and cb.value == eb.value):
@@ -165,17 +177,18 @@ def histories(draw, names, arrays=False, count=0):
 
 @st.composite
 def struct_cases(draw):
-    members, kinds = draw(member_lists())
+    want_nested = draw(st.booleans())
+    members, kinds = draw(member_lists(up=want_nested))
     params = dict(n=draw(st.integers(0, 4)))
     spec = ["struct", members]
-    data = build_input(draw, spec, params)
+    data = build_input(draw, spec, dict(params, pre=1))     # (the parent's "pre" member will hold 1)
     if data is None:
         data = draw(st.binary(max_size=20))
     elif draw(st.integers(0, 3)) == 0:
         data = draw(mutated(data, max_ops=1))
     names = member_names(members)
-    nested = draw(st.sampled_from(names)) if names and draw(st.booleans()) else None
-    return [members, params, data, draw(st.integers(0, 3)), draw(histories(names)), nested]
+    nested = draw(st.sampled_from(names)) if names and want_nested else None
+    return [members, params, data, draw(st.integers(0, 3)), draw(histories(names)), nested, bool(nested) and draw(st.booleans())]
 
 
 def campaign_lazystruct(ctx):
